@@ -773,6 +773,136 @@ theorem upgradeRoots_match (C : Crypto) (hC : HashWF C) (bs : Array Bytes) (t : 
           rw [this]; exact g6 hgne
         · exact r5 hl
 
+/-! ### the honest position list is short -/
+
+theorem grow_length_aux : ∀ (gs : List (Nat × Nat)) (L E : Nat), Grow gs L E → 0 < L → E < 2 ^ 64 → ∀ J0, 2 ^ J0 ∣ L → gs.length + J0 ≤ 64 := by
+  intro gs L E hg
+  induction hg with
+  | nil E =>
+    intro hL hE J0 hd
+    have := Nat.le_of_dvd hL hd
+    have h2 : 2 ^ J0 < 2 ^ 64 := by omega
+    have := (Nat.pow_lt_pow_iff_right (by decide : 1 < 2)).mp h2
+    simp; omega
+  | cons J M E rest hM hfit _ ih =>
+    intro hL hE J0 hd
+    have hpJ := pow_pos' J
+    have hJ0 : J0 ≤ J := by
+      by_contra hlt
+      obtain ⟨x, rfl⟩ : ∃ x, J0 = J + 1 + x := ⟨J0 - J - 1, by omega⟩
+      obtain ⟨c, hc⟩ := hd
+      have e : 2 ^ (J + 1 + x) * c = (2 * 2 ^ x * c) * 2 ^ J := by
+        rw [show J + 1 + x = J + (1 + x) by omega, Nat.pow_add, Nat.pow_add]; ring
+      rw [e] at hc
+      have hM2 : M = 2 * 2 ^ x * c := Nat.eq_of_mul_eq_mul_right hpJ hc
+      have : M = 2 * (2 ^ x * c) := by rw [hM2]; ring
+      omega
+    have hd' : 2 ^ (J + 1) ∣ M * 2 ^ J + 2 ^ J := by
+      refine ⟨(M + 1) / 2, ?_⟩
+      rw [pow_succ2]
+      have : 2 * 2 ^ J * ((M + 1) / 2) = (2 * ((M + 1) / 2)) * 2 ^ J := by ring
+      rw [this]
+      have : 2 * ((M + 1) / 2) = M + 1 := by omega
+      rw [this]; ring
+    have := ih (by omega) hE (J + 1) hd'
+    simp only [List.length_cons]
+    omega
+
+theorem up_length (m n : Nat) (hm0 : 0 < m) (hn : n < 2 ^ 64) : ∀ (ln : List (Nat × Nat)) (s : Nat) (us : List (Nat × Nat)), Cover ln s n → Up m s ln us →
+    us.length ≤ 64 + ln.length := by
+  intro ln
+  induction ln with
+  | nil =>
+    intro s us hc hup
+    cases hup with
+    | plain => simp
+  | cons p ln ih =>
+    intro s us hc hup
+    obtain ⟨d, o⟩ := p
+    have hrest : Cover ln ((o + 1) * 2 ^ d) n := by
+      cases hc with
+      | cons _ _ _ _ _ _ hr => exact hr
+    rcases hup.inv with ⟨_, _, hup'⟩ | ⟨_, husq⟩ | ⟨gs, _, _, _, hg, husq⟩
+    · have := ih _ us hrest hup'
+      simp only [List.length_cons]; omega
+    · subst husq; omega
+    · subst husq
+      have := grow_length_aux gs m _ hg hm0 (by have := hrest.le; omega) 0 (by simp)
+      simp only [List.length_append, List.length_cons]
+      omega
+
+/-! ### how many nodes an upgrade can add -/
+
+/-- roots + nodes of the changeset grow by two per `append_root` -/
+theorem appendRoot_pot (C : Crypto) (cs : Changeset) (n : Node) (it : Iter) :
+    (appendRoot C cs n it).1.roots.length + (appendRoot C cs n it).1.rnodes.length = cs.roots.length + cs.rnodes.length + 2 := by
+  have := mergeLoop_count C (cs.roots.length + 1) (n :: cs.roots.reverse) (n :: cs.rnodes) it
+  simp only [List.length_cons, List.length_reverse] at this
+  simp only [appendRoot]
+  generalize mergeLoop C (cs.roots.length + 1) (n :: cs.roots.reverse) (n :: cs.rnodes) it = r at this ⊢
+  obtain ⟨x, y, z⟩ := r
+  simp only [List.length_reverse] at this ⊢
+  omega
+
+/-- potential: every appended root consumes one queued node -/
+def pot (cs : Changeset) (q : NodeQueue) : Nat := cs.roots.length + cs.rnodes.length + 2 * q.count
+
+theorem growLoop_pot (C : Crypto) (rootIndex : Nat) : ∀ (fuel : Nat) (cs : Changeset) (it : Iter) (q : NodeQueue) (r : Changeset × Iter × NodeQueue),
+    growLoop C rootIndex fuel cs it q = .ok r → pot r.1 r.2.2 = pot cs q := by
+  intro fuel
+  induction fuel with
+  | zero => intro cs it q r h; simp [growLoop] at h
+  | succ fuel ih =>
+    intro cs it q r h
+    simp only [growLoop] at h
+    split at h
+    · cases h; rfl
+    · cases hs : q.shift it.sibling.index with
+      | error e => rw [hs] at h; cases h
+      | ok x =>
+        rw [hs] at h
+        simp only [] at h
+        have hc := shift_count q _ x.1 x.2 hs
+        have hp := appendRoot_pot C cs x.1 it.sibling
+        have := ih _ _ _ r h
+        unfold pot at this ⊢
+        omega
+
+theorem upgradeRoots_pot (C : Crypto) (upto : Nat) : ∀ (fuel : Nat) (st st' : UpState),
+    upgradeRoots C upto fuel st = .ok st' → pot st'.cs st'.q = pot st.cs st.q := by
+  intro fuel
+  induction fuel with
+  | zero => intro st st' h; simp [upgradeRoots] at h
+  | succ fuel ih =>
+    intro st st' h
+    simp only [upgradeRoots] at h
+    split at h
+    · cases h; rfl
+    · split at h
+      · have k := ih _ _ h
+        exact k
+      · split at h
+        · cases hg : growLoop C (st.it.fullRoot upto).2.index (st.q.nodes.length + 3) st.cs
+              (Iter.new (st.cs.roots.getLast?.getD default).index) st.q with
+          | error e => rw [hg] at h; cases h
+          | ok x =>
+            rw [hg] at h
+            simp only [] at h
+            have k1 := growLoop_pot C _ _ _ _ _ x hg
+            have k2 := ih _ _ h
+            exact k2.trans k1
+        · cases hs : st.q.shift (st.it.fullRoot upto).2.index with
+          | error e => rw [hs] at h; cases h
+          | ok x =>
+            rw [hs] at h
+            simp only [] at h
+            have hc := shift_count st.q _ x.1 x.2 hs
+            have hp := appendRoot_pot C st.cs x.1 (st.it.fullRoot upto).2
+            have k2 := ih _ _ h
+            unfold pot at k2 ⊢
+            simp only [] at k2
+            omega
+
 /-! ### `verify_upgrade` accepts the honest upgrade from `m` to `n` -/
 
 /-- the reference roots of the first `n` blocks, left to right -/
@@ -799,7 +929,9 @@ theorem grow_upgrade_accepted (C : Crypto) (hC : HashWF C) (bs : Array Bytes) (t
     (hver : C.verify pk (signableAt C bs n fork) sig = true) :
     ∃ cs', verifyUpgrade C fork ⟨m, n - m, us.map (fun p => nodeAt C bs p.1 p.2), [], sig⟩ none pk cs = .ok (true, cs')
       ∧ Inv C bs t f cs' n ∧ cs'.fork = fork ∧ cs'.signature = some sig ∧ cs'.upgraded = true
-      ∧ cs'.origLength = cs.origLength ∧ cs'.origFork = cs.origFork ∧ cs'.ancestors = cs.ancestors := by
+      ∧ cs'.origLength = cs.origLength ∧ cs'.origFork = cs.origFork ∧ cs'.ancestors = cs.ancestors
+      ∧ cs'.hash = some (rootsHash C cs'.roots)
+      ∧ cs'.rnodes.length ≤ cs.roots.length + cs.rnodes.length + 2 * us.length := by
   have hroots := inv_roots C bs t f cs m hinv
   have hrne : cs.roots ≠ [] := by
     rw [hroots, rootsAt]
@@ -835,8 +967,13 @@ theorem grow_upgrade_accepted (C : Crypto) (hC : HashWF C) (bs : Array Bytes) (t
     | some l => exact ⟨l, rfl⟩
   obtain ⟨last, hlast⟩ := hlast
   obtain ⟨m1, m2, m3, m4, m5⟩ := h4
+  have hcount : st'.cs.rnodes.length ≤ cs.roots.length + cs.rnodes.length + 2 * us.length := by
+    have hp := upgradeRoots_pot C _ _ _ _ h1
+    unfold pot at hp
+    simp only [NodeQueue.count, NodeQueue.new, List.length_map, Option.isSome_none, Bool.false_eq_true, ite_false, Nat.add_zero] at hp
+    omega
   refine ⟨{ st'.cs with fork := fork, hash := some (rootsHash C st'.cs.roots), signature := some sig }, ?_,
-    inv_congr C bs t f st'.cs _ n h2 rfl rfl rfl rfl, rfl, rfl, h5, m2, m3, m4⟩
+    inv_congr C bs t f st'.cs _ n h2 rfl rfl rfl rfl, rfl, rfl, h5, m2, m3, m4, rfl, hcount⟩
   unfold verifyUpgrade
   have hto : m + (n - m) = n := by omega
   simp only [andThen, hto]
@@ -1000,6 +1137,147 @@ theorem inv_changeset (C : Crypto) (bs : Array Bytes) (m : Nat) (c : Core) (d : 
   show c.tree.roots.reverse = _
   rw [h.roots, rootsAt, ← List.map_reverse, List.reverse_reverse]
 
+theorem growth_shape (C : Crypto) (hC : HashWF C) (bs : Array Bytes) (m n : Nat) (c : Core) (d : Disk) (held : Nat → Bool)
+    (h : RepRAt C bs m c d held) (hm0 : 0 < m) (hmn : m < n) (hn : n ≤ bs.size) (us : List (Nat × Nat))
+    (hup : Up m 0 (rootsStack n).reverse us) (sig : Bytes) (hsl : sig.length = 64)
+    (hver : C.verify c.publicKey (signableAt C bs n c.tree.fork) sig = true) :
+    ∃ cs : Changeset, Inv C bs c.tree d.tree cs n ∧ cs.fork = c.tree.fork ∧ cs.signature = some sig ∧ cs.upgraded = true
+      ∧ cs.ancestors = c.tree.length ∧ cs.hash = some (rootsHash C cs.roots) ∧ cs.nodes.length ≤ 64 + 2 * us.length
+      ∧ c.verifyAndApply C d (honestGrowth C bs c.tree.fork m n us sig)
+        = { core := (growCore c cs).maybeFlush.1, result := .ok true,
+            journal := (Oplog.appendEntry c.oplog (Core.entryOf cs none c.header).1).2 ++ (growCore c cs).maybeFlush.2,
+            events := Core.appliedEvents (honestGrowth C bs c.tree.fork m n us sig) none } := by
+  have hN : n < 2 ^ 64 := by have := h.small.1; omega
+  have hinv0 := inv_changeset C bs m c d held h
+  obtain ⟨cs, h1, h2, h4, h5, h7, h8, h9, h10, h11, h12⟩ := grow_upgrade_accepted C hC bs c.tree d.tree m n hN hm0 hmn c.tree.fork c.publicKey sig
+    c.tree.changeset hinv0 us hup hsl hver
+  have hvv : verifyProof C c.tree d.tree (honestGrowth C bs c.tree.fork m n us sig) c.publicKey = .ok cs := by
+    simp [honestGrowth, Tree.verifyProof, verifyTree, untrustedOf, noSeekOf, h1]
+  have ho1 : cs.origLength = c.tree.length := by simpa [Tree.changeset] using h8
+  have ho2 : cs.origFork = c.tree.fork := by simpa [Tree.changeset] using h9
+  have ha : cs.ancestors = c.tree.length := by simpa [Tree.changeset] using h10
+  have hcmt : c.tree.commitable cs = true := by simp [Tree.commitable, h7, ho1, ho2]
+  have hnl : ¬ (cs.ancestors < cs.origLength) := by omega
+  generalize htr : ({ c.tree with roots := cs.roots, length := cs.length, byteLength := cs.byteLength, fork := cs.fork, signature := cs.signature, unflushed := insertAll c.tree.unflushed cs.nodes } : Tree) = tr
+  have hcommit : c.tree.commit cs = .ok tr := by
+    rw [← htr]
+    simp only [Tree.commit, hcmt, h7, Bool.not_true, Bool.false_eq_true, ite_false, Bool.true_and, decide_eq_true_eq, hnl, ite_true, insertAll]
+  have hds : Core.dataStep c d (honestGrowth C bs c.tree.fork m n us sig) cs = .ok ([], none) := by
+    simp [Core.dataStep, honestGrowth]
+  have hp : (honestGrowth C bs c.tree.fork m n us sig).fork = c.tree.fork := rfl
+  generalize hc1 : ({ c with oplog := (Oplog.appendEntry c.oplog (Core.entryOf cs none c.header).1).1, header := (Core.entryOf cs none c.header).2, bitfield := c.bitfield, tree := tr } : Core) = c1
+  have hshape : c.verifyAndApply C d (honestGrowth C bs c.tree.fork m n us sig)
+      = { core := c1.maybeFlush.1, result := .ok true,
+          journal := (Oplog.appendEntry c.oplog (Core.entryOf cs none c.header).1).2 ++ c1.maybeFlush.2,
+          events := Core.appliedEvents (honestGrowth C bs c.tree.fork m n us sig) none } := by
+    unfold Core.verifyAndApply
+    simp only [hp, ne_eq, not_true_eq_false, ite_false, hvv, hcmt, Bool.not_true, Bool.false_eq_true, hds]
+    unfold Core.applyVerified
+    simp only [hcommit, Core.finishApply, List.nil_append, ← hc1]
+  refine ⟨cs, h2, h4, h5, h7, ha, h11, ?_, ?_⟩
+  · have hrl : c.tree.changeset.roots.length ≤ 64 := by
+      show c.tree.roots.length ≤ 64
+      rw [h.roots, rootsAt, List.length_map, List.length_reverse]
+      exact rootsStack_length_log 64 m (by have := h.small.1; have := h.le; omega)
+    have : c.tree.changeset.rnodes = [] := rfl
+    rw [this] at h12
+    simp only [Changeset.nodes, List.length_reverse]
+    simp only [List.length_nil] at h12
+    omega
+  rw [hshape, ← hc1, ← htr]
+  rfl
+
+theorem growCore_repr (C : Crypto) (hC : HashWF C) (bs : Array Bytes) (m n : Nat) (c : Core) (d : Disk) (held : Nat → Bool)
+    (h : RepRAt C bs m c d held) (hm0 : 0 < m) (hmn : m < n) (hn : n ≤ bs.size) (us : List (Nat × Nat))
+    (hup : Up m 0 (rootsStack n).reverse us) (sig : Bytes) (hsl : sig.length = 64)
+    (hver : C.verify c.publicKey (signableAt C bs n c.tree.fork) sig = true) :
+    ∃ cs : Changeset, Inv C bs c.tree d.tree cs n ∧ cs.fork = c.tree.fork ∧ cs.signature = some sig ∧ cs.upgraded = true
+      ∧ cs.ancestors = c.tree.length ∧ cs.hash = some (rootsHash C cs.roots) ∧ cs.nodes.length ≤ 64 + 2 * us.length
+      ∧ c.verifyAndApply C d (honestGrowth C bs c.tree.fork m n us sig)
+        = { core := (growCore c cs).maybeFlush.1, result := .ok true,
+            journal := (Oplog.appendEntry c.oplog (Core.entryOf cs none c.header).1).2 ++ (growCore c cs).maybeFlush.2,
+            events := Core.appliedEvents (honestGrowth C bs c.tree.fork m n us sig) none }
+      ∧ RepRAt C bs n (growCore c cs) (d.applyAll (Oplog.appendEntry c.oplog (Core.entryOf cs none c.header).1).2) held := by
+  have hN : n < 2 ^ 64 := by have := h.small.1; omega
+  have hinv0 := inv_changeset C bs m c d held h
+  obtain ⟨cs, h1, h2, h4, h5, h7, h8, h9, h10, h11, h12⟩ := grow_upgrade_accepted C hC bs c.tree d.tree m n hN hm0 hmn c.tree.fork c.publicKey sig
+    c.tree.changeset hinv0 us hup hsl hver
+  have hvv : verifyProof C c.tree d.tree (honestGrowth C bs c.tree.fork m n us sig) c.publicKey = .ok cs := by
+    simp [honestGrowth, Tree.verifyProof, verifyTree, untrustedOf, noSeekOf, h1]
+  have ho1 : cs.origLength = c.tree.length := by simpa [Tree.changeset] using h8
+  have ho2 : cs.origFork = c.tree.fork := by simpa [Tree.changeset] using h9
+  have ha : cs.ancestors = c.tree.length := by simpa [Tree.changeset] using h10
+  have hcmt : c.tree.commitable cs = true := by simp [Tree.commitable, h7, ho1, ho2]
+  have hnl : ¬ (cs.ancestors < cs.origLength) := by omega
+  generalize htr : ({ c.tree with roots := cs.roots, length := cs.length, byteLength := cs.byteLength, fork := cs.fork, signature := cs.signature, unflushed := insertAll c.tree.unflushed cs.nodes } : Tree) = tr
+  have hcommit : c.tree.commit cs = .ok tr := by
+    rw [← htr]
+    simp only [Tree.commit, hcmt, h7, Bool.not_true, Bool.false_eq_true, ite_false, Bool.true_and, decide_eq_true_eq, hnl, ite_true, insertAll]
+  have hds : Core.dataStep c d (honestGrowth C bs c.tree.fork m n us sig) cs = .ok ([], none) := by
+    simp [Core.dataStep, honestGrowth]
+  have hp : (honestGrowth C bs c.tree.fork m n us sig).fork = c.tree.fork := rfl
+  generalize hc1 : ({ c with oplog := (Oplog.appendEntry c.oplog (Core.entryOf cs none c.header).1).1, header := (Core.entryOf cs none c.header).2, bitfield := c.bitfield, tree := tr } : Core) = c1
+  have hshape : c.verifyAndApply C d (honestGrowth C bs c.tree.fork m n us sig)
+      = { core := c1.maybeFlush.1, result := .ok true,
+          journal := (Oplog.appendEntry c.oplog (Core.entryOf cs none c.header).1).2 ++ c1.maybeFlush.2,
+          events := Core.appliedEvents (honestGrowth C bs c.tree.fork m n us sig) none } := by
+    unfold Core.verifyAndApply
+    simp only [hp, ne_eq, not_true_eq_false, ite_false, hvv, hcmt, Bool.not_true, Bool.false_eq_true, hds]
+    unfold Core.applyVerified
+    simp only [hcommit, Core.finishApply, List.nil_append, ← hc1]
+  have hj1 : ∀ op ∈ (Oplog.appendEntry c.oplog (Core.entryOf cs none c.header).1).2, op.store = .oplog := Journal.appendEntry_store _ _
+  have htree : (d.applyAll (Oplog.appendEntry c.oplog (Core.entryOf cs none c.header).1).2).tree = d.tree :=
+    LiveRefine.tree_of_applyAll _ _ (fun op hop => by rw [hj1 op hop]; decide)
+  have hdata : (d.applyAll (Oplog.appendEntry c.oplog (Core.entryOf cs none c.header).1).2).data = d.data :=
+    LiveRefine.data_of_applyAll _ _ (fun op hop => by rw [hj1 op hop]; decide)
+  have hc1t : c1.tree = tr := by rw [← hc1]
+  have hc1b : c1.bitfield = c.bitfield := by rw [← hc1]
+  have hc1h : c1.header.contiguous = c.header.contiguous := by
+    rw [← hc1]; simp only [Core.entryOf, h7, ite_true]
+  -- lookups of the committed tree are those of the virtual tree of the invariant
+  have hlook : ∀ i, tr.node? d.tree i = (vt c.tree cs).node? d.tree i := by
+    intro i; rw [← htr]; exact node?_congr _ _ _ _ rfl
+  have hnodesRef : ∀ x ∈ cs.nodes, ∃ dd o, x = nodeAt C bs dd o ∧ (o + 1) * 2 ^ dd ≤ n := by
+    intro x hx
+    exact h2.nodesRef x (by simpa [Changeset.nodes] using hx)
+  have hrep1 : RepRAt C bs n c1 (d.applyAll (Oplog.appendEntry c.oplog (Core.entryOf cs none c.header).1).2) held := by
+    obtain ⟨_, hold, _⟩ := insert_lookup C hC bs c.tree tr d.tree cs.nodes (fun x hx => by obtain ⟨dd, o, e, _⟩ := hnodesRef x hx; exact ⟨dd, o, e⟩)
+      (by rw [← htr])
+    refine ⟨hn, ?_, (by rw [hc1t, ← htr]; exact inv_roots C bs c.tree d.tree cs n h2), (by rw [hc1t, ← htr]; exact h2.bytes), ?_,
+      (by rw [htree]; exact h.aligned), (by intro i; rw [hc1b]; exact h.bits i), (fun i hi => by have := h.heldLt i hi; omega), ?_, ?_,
+      (by rw [hc1b, hc1h]; exact h.contig), h.small⟩
+    · rw [hc1t, htree]
+      exact closedAt_congr C bs n (vt c.tree cs) tr d.tree d.tree h2.closed hlook (by rw [← htr]; rfl)
+    · rw [hc1t, ← htr]
+      apply mapWF_insertAll _ _ h.mapwf
+      intro x hx
+      obtain ⟨dd, o, rfl, hb⟩ := hnodesRef x hx
+      refine ⟨nodeAt_hash_len C hC bs dd o, ?_⟩
+      have a1 := nodeAt_length_le C bs dd o
+      have a2 := psum_mono bs (Nat.le_trans hb hn)
+      have := h.small.2
+      omega
+    · intro i hi
+      rw [hc1t, htree]
+      exact hold _ _ (h.leaf i hi)
+    · intro i hi k hk
+      rw [hdata]; exact h.data i hi k hk
+  have hrl : c.tree.changeset.roots.length ≤ 64 := by
+    show c.tree.roots.length ≤ 64
+    rw [h.roots, rootsAt, List.length_map, List.length_reverse]
+    exact rootsStack_length_log 64 m (by have := h.small.1; have := h.le; omega)
+  have hcnt : cs.nodes.length ≤ 64 + 2 * us.length := by
+    have : c.tree.changeset.rnodes = [] := rfl
+    rw [this] at h12
+    simp only [Changeset.nodes, List.length_reverse]
+    simp only [List.length_nil] at h12
+    omega
+  refine ⟨cs, h2, h4, h5, h7, ha, h11, hcnt, ?_, ?_⟩
+  · rw [hshape, ← hc1, ← htr]
+    rfl
+  · rw [← hc1, ← htr] at hrep1
+    exact hrep1
+
 /-- **a growth round at core level**: the replica that represents the first `m` blocks applies the honest upgrade to
     `n` and then represents the first `n` blocks; what it holds is untouched -/
 theorem apply_growth (C : Crypto) (hC : HashWF C) (bs : Array Bytes) (m n : Nat) (c : Core) (d : Disk) (held : Nat → Bool)
@@ -1013,7 +1291,7 @@ theorem apply_growth (C : Crypto) (hC : HashWF C) (bs : Array Bytes) (m n : Nat)
       ∧ (c.verifyAndApply C d (honestGrowth C bs c.tree.fork m n us sig)).core.publicKey = c.publicKey := by
   have hN : n < 2 ^ 64 := by have := h.small.1; omega
   have hinv0 := inv_changeset C bs m c d held h
-  obtain ⟨cs, h1, h2, h4, h5, h7, h8, h9, h10⟩ := grow_upgrade_accepted C hC bs c.tree d.tree m n hN hm0 hmn c.tree.fork c.publicKey sig
+  obtain ⟨cs, h1, h2, h4, h5, h7, h8, h9, h10, _, _⟩ := grow_upgrade_accepted C hC bs c.tree d.tree m n hN hm0 hmn c.tree.fork c.publicKey sig
     c.tree.changeset hinv0 us hup hsl hver
   have hvv : verifyProof C c.tree d.tree (honestGrowth C bs c.tree.fork m n us sig) c.publicKey = .ok cs := by
     simp [honestGrowth, Tree.verifyProof, verifyTree, untrustedOf, noSeekOf, h1]
